@@ -44,10 +44,16 @@ followed by operations on the interactions it created (`BuildPermI.IsBlk`, close
 `IsBlk.seq`); the atoms commute pairwise up to `Sim` (`atom_comm`), hence so do creators (`comm_atoms`, a bubble
 sort using that `Sim` is transitive and kept by every atom), hence so do blocks (`blk_comm`).
 
-STILL MISSING relative to the full statement: JSON-RPC children of a URL (Protocol / Method with Params, Result:
-the atoms `protoS` and an `interS` with the text-clash check of `addJsonRpcMethod`, and `LocalAt` for
-`addRpcSchema` under a Method parent — the block framework itself needs no change), and the shapes `Gen.childAllowed`
-does not allow (they are counterexamples, see `alien_url_order_matters`).  `hpaths` cannot be dropped
+THIRD ROUND: a URL block may also hold JSON-RPC children — Protocol (atom `protoS`: the set `protoURLs`) and
+Method with Description / Params / Result / Tags below it (`isRpcMethodBlock`; the atom `interS` refuses an id
+that is TAKEN, `BuildPermI.taken`: it is there or, for a JSON-RPC id, an interaction with the same text is;
+`forest_local_rpc`: everything below a Method works on the interaction of that Method).  A URL with both HTTP
+and JSON-RPC children is refused by `addURL` (`mixedChild`): a constant failure, which commutes with everything.
+The four `…'` theorems cover these blocks: with this the statement holds for every shape `Gen.childAllowed`
+allows for URL and method trees.
+
+STILL MISSING relative to the full statement as first given: nothing that is true — the shapes `Gen.childAllowed`
+does not allow are counterexamples (`alien_url_order_matters`), and `hpaths` cannot be dropped
 (`path_stage_order_matters`).  For concrete forests the decidable checker `bothSame'` (sound: `bothSame'_sound`)
 covers all shapes.
 -/
@@ -214,8 +220,23 @@ end
 /-- an HTTP-method tree with allowed descendants (Tags included) -/
 def isMethodBlock' (t : BTree) : Bool := httpMethods.contains t.dir.kind && localForestT t.kids
 
-/-- the children of a URL that create nothing: Tags, Path, Paste -/
-def quietKind (d : BDir) : Bool := d.kind == .Tags || d.kind == .Path || d.kind == .Paste
+/-- the children of a URL that create no interaction: Tags, Path, Paste, Protocol -/
+def quietKind (d : BDir) : Bool := d.kind == .Tags || d.kind == .Path || d.kind == .Paste || d.kind == .Protocol
+
+/-- the directives allowed below a JSON-RPC Method directive (`Gen.childAllowed`) -/
+def rpcKind (d : BDir) : Bool :=
+  d.kind == .Description || d.kind == .Params || d.kind == .Result || d.kind == .Tags
+
+mutual
+  def rpcTree : BTree → Bool
+    | .node d kids => rpcKind d && rpcForest kids
+  def rpcForest : List BTree → Bool
+    | [] => true
+    | t :: r => rpcTree t && rpcForest r
+end
+
+/-- a JSON-RPC Method tree with allowed descendants -/
+def isRpcMethodBlock (t : BTree) : Bool := t.dir.kind == .Method && rpcForest t.kids
 
 mutual
   def quietTree : BTree → Bool
@@ -225,10 +246,10 @@ mutual
     | t :: r => quietTree t && quietForest r
 end
 
-/-- a child of a URL directive (HTTP only: no Protocol / Method) -/
-def isUrlKid (t : BTree) : Bool := isMethodBlock' t || quietTree t
+/-- a child of a URL directive -/
+def isUrlKid (t : BTree) : Bool := isMethodBlock' t || isRpcMethodBlock t || quietTree t
 
-/-- a URL tree whose children are method blocks, Tags, Path, Paste -/
+/-- a URL tree whose children are HTTP-method blocks, JSON-RPC Method blocks, Tags, Path, Paste, Protocol -/
 def isUrlBlock' (t : BTree) : Bool := t.dir.kind == .URL && t.kids.all isUrlKid
 
 /-- the blocks of the second partial statement -/
@@ -254,9 +275,17 @@ theorem isMethodBlock'_eq (t : BTree) :
     isMethodBlock' t = (isHTTP t.dir.kind && BuildPerm.allF BuildPermI.localKindT t.kids) := by
   unfold isMethodBlock'; rw [localForestT_eq]; rfl
 
+mutual
+  theorem rpcTree_eq : ∀ t : BTree, rpcTree t = BuildPerm.allT BuildPermI.rpcKind t
+    | .node d kids => by rw [rpcTree, BuildPerm.allT, rpcForest_eq kids]; rfl
+  theorem rpcForest_eq : ∀ ts : List BTree, rpcForest ts = BuildPerm.allF BuildPermI.rpcKind ts
+    | [] => by rw [rpcForest, BuildPerm.allF]
+    | t :: r => by rw [rpcForest, BuildPerm.allF, rpcTree_eq t, rpcForest_eq r]
+end
+
 theorem isUrlKid_eq (t : BTree) : isUrlKid t = BuildPermI.isKid t := by
-  unfold isUrlKid BuildPermI.isKid
-  rw [isMethodBlock'_eq, quietTree_eq]
+  unfold isUrlKid BuildPermI.isKid isRpcMethodBlock
+  rw [isMethodBlock'_eq, quietTree_eq, rpcForest_eq]
 
 theorem isInterBlock'_eq (t : BTree) : isInterBlock' t = BuildPermI.isInterBlockH t := by
   unfold isInterBlock' BuildPermI.isInterBlockH isUrlBlock'
@@ -300,7 +329,7 @@ mutual
       refine ⟨?_, plain_of_quietForest kids h.2⟩
       have hq := h.1
       simp only [quietKind, Bool.or_eq_true, beq_iff_eq] at hq
-      rcases hq with (e | e) | e <;> simp [C10B.plainKind, e]
+      rcases hq with ((e | e) | e) | e <;> simp [C10B.plainKind, e]
   theorem plain_of_quietForest : ∀ ts : List BTree, quietForest ts = true → C10B.plainForest ts = true
     | [], _ => by rw [C10B.plainForest]
     | t :: r, h => by
@@ -317,6 +346,28 @@ theorem plain_of_method' {t : BTree} (h : isMethodBlock' t = true) : C10B.plainT
     refine ⟨?_, plain_of_localForestT kids h.2⟩
     rcases BuildPermI.isHTTP_cases h.1 with e | e | e | e | e <;> simp [C10B.plainKind, e]
 
+mutual
+  theorem plain_of_rpcTree : ∀ t : BTree, rpcTree t = true → C10B.plainTree t = true
+    | .node d kids, h => by
+      rw [rpcTree, Bool.and_eq_true] at h
+      rw [C10B.plainTree, Bool.and_eq_true]
+      refine ⟨?_, plain_of_rpcForest kids h.2⟩
+      rcases BuildPermI.rpcKind_cases h.1 with e | e | e | e <;> simp [C10B.plainKind, e]
+  theorem plain_of_rpcForest : ∀ ts : List BTree, rpcForest ts = true → C10B.plainForest ts = true
+    | [], _ => by rw [C10B.plainForest]
+    | t :: r, h => by
+      rw [rpcForest, Bool.and_eq_true] at h
+      rw [C10B.plainForest, Bool.and_eq_true]
+      exact ⟨plain_of_rpcTree t h.1, plain_of_rpcForest r h.2⟩
+end
+
+theorem plain_of_rpcMethod {t : BTree} (h : isRpcMethodBlock t = true) : C10B.plainTree t = true := by
+  cases t with
+  | node d kids =>
+    simp only [isRpcMethodBlock, BTree.dir, BTree.kids, Bool.and_eq_true, beq_iff_eq] at h
+    rw [C10B.plainTree, Bool.and_eq_true]
+    exact ⟨by simp [C10B.plainKind, h.1], plain_of_rpcForest kids h.2⟩
+
 theorem plain_of_urlKids : ∀ ts : List BTree, ts.all isUrlKid = true → C10B.plainForest ts = true
   | [], _ => by rw [C10B.plainForest]
   | t :: r, h => by
@@ -325,9 +376,10 @@ theorem plain_of_urlKids : ∀ ts : List BTree, ts.all isUrlKid = true → C10B.
     refine ⟨?_, plain_of_urlKids r h.2⟩
     have hk := h.1
     unfold isUrlKid at hk
-    rw [Bool.or_eq_true] at hk
-    rcases hk with hk | hk
+    rw [Bool.or_eq_true, Bool.or_eq_true] at hk
+    rcases hk with (hk | hk) | hk
     · exact plain_of_method' hk
+    · exact plain_of_rpcMethod hk
     · exact plain_of_quietTree t hk
 
 /-- the blocks of the second partial statement are blocks of the full one -/
@@ -351,7 +403,7 @@ theorem isInterBlock_of' {t : BTree} (h : isInterBlock' t = true) : isInterBlock
       exact ⟨by simp [C10B.plainKind, e], plain_of_urlKids kids h.2⟩
 
 /-- (1', partial) the verdict: two neighbouring interaction blocks — method blocks (Tags allowed) or URL blocks with
-method children — in either order.  MISSING for the full `swap_inter_verdict`: JSON-RPC children of a URL -/
+method and JSON-RPC children — in either order: every shape `Gen.childAllowed` allows.  `hpaths` cannot be dropped -/
 theorem swap_inter_verdict_partial' (banned : List Kind) (pre post : List BTree) (a b : BTree)
     (ha : isInterBlock' a = true) (hb : isInterBlock' b = true) (hpre : pre ≠ [])
     (hpaths : (pathsForest [] (pre ++ a :: b :: post) none).isOk = (pathsForest [] (pre ++ b :: a :: post) none).isOk) :
@@ -584,6 +636,53 @@ example : C10B.bothRejected [] [J, Ub, Ub2] [J, Ub2, Ub] = true ∧
     C10B.bothRejected [] [J, Pc, GcBad] [J, GcBad, Pc] = true ∧
     C10B.errIs (compile [] [J, Pc, GcBad]) ⟨121, .tagNotFound⟩ = true ∧
     C10B.errIs (compile [] [J, GcBad, Pc]) ⟨121, .tagNotFound⟩ = true := by decide +kernel
+
+/-! #### third round: JSON-RPC -/
+
+private def proto (id : Nat) : BTree :=
+  .node { kind := .Protocol, id := id, src := id, named := [("ProtocolName", s "json-rpc-2.0")] } []
+private def rpcM (id : Nat) (name : String) : BTree :=
+  .node { kind := .Method, id := id, src := id, named := [("MethodName", s name)], annot := s "a method" }
+    [.node { kind := .Description, id := id + 1, src := id + 1, body := some (s "text") } [],
+     .node { kind := .Params, id := id + 2, src := id + 2, body := some (s "{}") } [],
+     .node { kind := .Result, id := id + 3, src := id + 3, body := some (s "1") } []]
+/-- URL /api with Protocol and two methods; URL /rpc with Protocol, URL-level Tags and one method -/
+private def Ra : BTree :=
+  .node { kind := .URL, id := 200, src := 200, named := [("Path", s "/api")] } [proto 201, rpcM 210 "foo", rpcM 220 "bar"]
+private def Rb : BTree :=
+  .node { kind := .URL, id := 230, src := 230, named := [("Path", s "/rpc")] } [proto 231, tags 232, rpcM 240 "foo"]
+/-- a URL with a method but no Protocol; a URL with an HTTP method and a JSON-RPC method -/
+private def Rnp : BTree :=
+  .node { kind := .URL, id := 250, src := 250, named := [("Path", s "/np")] } [rpcM 260 "foo"]
+private def Rmix : BTree :=
+  .node { kind := .URL, id := 270, src := 270, named := [("Path", s "/mix")] }
+    [proto 271, .node { kind := .Get, id := 272, src := 272 } [resp 273], rpcM 280 "foo"]
+
+example : isInterBlock' Ra = true ∧ isInterBlock' Rb = true ∧ isInterBlock' Rnp = true ∧ isInterBlock' Rmix = true ∧
+    noPathTree Ra = true ∧ noPathTree Rb = true := by decide +kernel
+
+/-- two JSON-RPC URL blocks; a JSON-RPC block and an HTTP URL block; a JSON-RPC block and a method block -/
+example : bothSame' [] [J, Tg, Ra, Rb, Gc] [J, Tg, Rb, Ra, Gc] = true ∧
+    bothSame' [] [J, Tg, Ra, Uf] [J, Tg, Uf, Ra] = true ∧
+    bothSame' [] [J, Tg, Rb, GcT] [J, Tg, GcT, Rb] = true := by decide +kernel
+
+/-- the same by the theorem -/
+example : ∃ c c', compile [] [J, Tg, Ra, Rb, Gc] = .ok c ∧ compile [] [J, Tg, Rb, Ra, Gc] = .ok c' ∧
+    SameUpToOrder' c c' := by
+  have h : (compile [] [J, Tg, Ra, Rb, Gc]).isOk = true := by decide +kernel
+  cases hc : compile [] [J, Tg, Ra, Rb, Gc] with
+  | error e => rw [hc] at h; cases h
+  | ok c =>
+    obtain ⟨c', h', hs⟩ := swap_inter_partial_noPath' [] [J, Tg] [Gc] Ra Rb (by decide +kernel) (by decide +kernel)
+      (by simp) (by decide +kernel) (by decide +kernel) c hc
+    exact ⟨c, c', rfl, h', hs⟩
+
+/-- rejected in both orders: a Method without Protocol; HTTP and JSON-RPC children in one URL -/
+example : C10B.bothRejected [] [J, Ra, Rnp] [J, Rnp, Ra] = true ∧
+    C10B.errIs (compile [] [J, Ra, Rnp]) ⟨260, .protocolMissing⟩ = true ∧
+    C10B.errIs (compile [] [J, Rnp, Ra]) ⟨260, .protocolMissing⟩ = true ∧
+    C10B.bothRejected [] [J, Ra, Rmix] [J, Rmix, Ra] = true ∧
+    C10B.errIs (compile [] [J, Rmix, Ra]) ⟨272, .mixedUrlChildren⟩ = true := by decide +kernel
 
 /-! #### why the hypotheses are there -/
 
